@@ -167,6 +167,8 @@ def stmt_sql(e, obs_before, pk, rnd, fat=1):
     if a == "ci":
         base = sorted(n for n, v in obs_before["adb"].items() if v["k"] == "table")[0]
         return f"create index ix{rnd.randrange(10**6)} on {tname(base)} using btree (a)"
+    if a == "cf":
+        return f"create function fn{rnd.randrange(10**6)}(int) returns int language sql as 'select $1 + 1'"
     if a in ("dt", "dtx"):          # dtx: a view selects from the table, the statement is refused
         return f"drop table {tname(e['n'])}"
     if a == "ins":
